@@ -317,7 +317,9 @@ def _execute(prop, scen: Scenario, cfg, rng, recorded, res, hasher, keep_log, ma
         try:
             build_netlist(sim._design)
         except CombinationalCycle as e:
-            raise Violation("comb-cycle", str(e)[:400])
+            if getattr(scen, "comb_cycle_is_violation", True):
+                raise Violation("comb-cycle", str(e)[:400])
+            raise Skip("design has a combinational cycle (C10's business); not simulated: " + str(e)[:160])
 
     ncycles = scen.cycles()
     if recorded is not None:
